@@ -231,3 +231,50 @@ PROPS["C14"] = dict(
         assumptions=_E1_ASSUME,
     ),
 )
+
+PROPS["C20"] = dict(
+    level="exploration",
+    budget_s=dict(quick=150, thorough=1500),
+    parts=[dict(name="trees", bin="C20", flavour="plain")],
+    manifest=dict(
+        engine="E2", design_ref="5 / C20",
+        technique="exhaustive enumeration of all ordered forests up to n nodes x starts x filters x depth limits on real section/source trees against a queue-based BFS of the harness model; all link assignments up to k for back references",
+        text="Every ordered forest with at most n nodes (n=6 quick / 8 thorough; <=5 levels, <=4 children) is built as a section tree and as a source tree; every start "
+             "(container and every node) x every filter (accept-all in all call forms, id, name, type, id-set) x every depth limit 0..levels+1 and the default is compared with a "
+             "brute-force BFS (set equality, each entity once; exact breadth-first order for single-node starts). After creating/deleting nodes the queries are repeated through "
+             "handles obtained before the change and fresh ones. Back references: every assignment of <=k metadata/source links from 11 holders, all referring* variants and "
+             "parentSource vs the inverse link relation, before and after deleting each node. inheritedProperties for all subset pairs of {p,q,r} with shadowing, link-of-link "
+             "and creation orders.",
+        note="The depth-limit origin per entry point is not part of the statement; it is fixed as the repository's tests pin it and probed on 1-3 node chains (case 0/1). "
+             "Order of File::/Block:: searches and of referring* lists is not asserted. findRelated is excluded."),
+    evidence=dict(
+        keys=dict(evaluations=("sum", [("count", "queries"), ("count", "backref_queries"), ("count", "inherited_checks")]), distinct_nontrivial=("distinct", "outcomes")),
+        rule="(0) depth-origin convention on chains; (1) unit-test fixtures; (2) every ordered forest <= n nodes x {section tree, source tree} x start x filter x max_depth; "
+             "modifications (create/delete each node) with old and fresh handles; (3) forests <= nb nodes x every assignment of <= k links; (4) inherited properties over all "
+             "subset pairs. distinct_nontrivial = distinct (tree kind, entry point, filter kind, depth class, result size class, phase, deviation) tuples.",
+        bound=dict(quick="search n<=6 (187 forests), modifications n<=5; back references <=3 nodes, k<=2", thorough="search n<=8 (1744 forests), modifications n<=7; back references <=3 nodes k<=3, 4 nodes k<=2"),
+        assumptions=["depth-limit origin per entry point as pinned by the unit tests", "siblings are enumerated in creation order (C03)", "a byte copy of a flushed file is a valid file (checked)"],
+    ),
+)
+
+PROPS["C19"] = dict(
+    level="exploration",
+    budget_s=dict(quick=150, thorough=2400),
+    parts=[dict(name="validator", bin="C19", flavour="plain")],
+    manifest=dict(
+        engine="E2", design_ref="5 / C19",
+        technique="exhaustive enumeration of generated conforming files x breach catalogue (every kind x variant x entity, singly and in pairs) validated by the real validator; oracle: multiset difference of (entity id, message) errors",
+        text="Conforming files covering all 84 descriptor-kind combinations (rank 1-3) with tags, multi-tags, features, sources and unit-carrying properties must validate without "
+             "error. Every hard breach (descriptor count, tick/label/row count, unsorted ticks, non-positive interval, unit mismatch per dimension position from tag and from "
+             "array side, deleted positions, deleted feature data) is injected at every applicable entity alone (quick) and in all non-conflicting pairs (thorough) into an id-"
+             "preserving copy; the breached entity must draw an error that the file without that breach does not have. Soft breaches must add no error (and a warning where a rule exists).",
+        note="'Conforming' is read strictly per docs/validation.rst. Unsorted ticks and bad intervals are planted through the HDF5 C API because the public entry points reject them. "
+             "Equal adjacent ticks and a missing array unit are statistics only."),
+    evidence=dict(
+        keys=dict(evaluations=("sum", [("count", "breached_entities_checked"), ("count", "soft_checks"), ("count", "conforming_files")]), distinct_nontrivial=("distinct", "outcomes")),
+        rule="case = (file, chunk of 8 breach sites); every hard breach (kind x variant x entity) and soft breach injected alone, thorough also every non-conflicting pair (all pairs on 32 "
+             "files, related pairs elsewhere); file reopened ReadOnly and File::validate() called; distinct_nontrivial = distinct (breach kind set -> new error messages / soft outcome).",
+        bound=dict(quick="k<=1 on 32 files (about 3.3k breach instances)", thorough="k<=2 on 284 files (28k singles, 181k pairs)"),
+        assumptions=["HDF5 dataset/attribute I/O is correct for planting ticks and intervals", "conflicting breach pairs (same attribute, or one removes the other's target) are excluded"],
+    ),
+)
